@@ -2,6 +2,7 @@ package sched
 
 import (
 	"fmt"
+	"strings"
 	"time"
 )
 
@@ -60,7 +61,7 @@ func (x *Explorer) runOne(prefix []int, expect []string) *Result {
 	case "livelock":
 		keys = append(keys, "livelock")
 	case "panic":
-		keys = append(keys, fmt.Sprintf("panic: %v", res.Panic))
+		keys = append(keys, PanicKey(res))
 	}
 	if h.Check != nil {
 		keys = append(keys, h.Check(res)...)
@@ -88,6 +89,29 @@ func (x *Explorer) Explore() {
 		x.ByPreempt = map[int]int{}
 	}
 	x.explore(nil, nil, 0)
+}
+
+// PanicKey names a panic by its value and the innermost repository function (outside logging / fs helpers / the
+// harness) on the panicking stack, so that known findings can be matched by call site.
+func PanicKey(res *Result) string {
+	site := ""
+	for _, l := range strings.Split(res.Stack, "\n") {
+		const mod = "github.com/apache/skywalking-banyandb/"
+		if !strings.HasPrefix(l, mod) {
+			continue
+		}
+		f := l[len(mod):]
+		if strings.HasPrefix(f, "pkg/verif/") || strings.HasPrefix(f, "banyand/verif/") || strings.HasPrefix(f, "pkg/logger") || strings.HasPrefix(f, "pkg/fs.") {
+			continue
+		}
+		if i := strings.LastIndex(f, "("); i > 0 {
+			f = f[:i]
+		}
+		f = strings.ReplaceAll(f, "[...]", "")
+		site = f
+		break
+	}
+	return fmt.Sprintf("panic: %v @ %s", res.Panic, site)
 }
 
 func sigs(r *Result) []string {
